@@ -62,6 +62,7 @@ std::string vf_run(const Case &c, vf::Ctx &ctx) {
     else if (inst.built_hashfail[t]) ctx.count("table.hash_failed(linear)");
     else { ctx.count("table.hashed"); anyhashed = true; }
   }
+  char loc[1024];
   for (size_t i = 0; i < c.addrs.size(); i++) {
     const std::string &addr = c.addrs[i], &tags = c.tags[i];
     pt::MsgBuf mb("/" + addr, tags);
@@ -79,8 +80,9 @@ std::string vf_run(const Case &c, vf::Ctx &ctx) {
 
     // (2) with location buffer
     inst.seen.clear();
-    char loc[1024];
-    memset(loc, 0, sizeof loc);
+    // the location buffer is zeroed once and then reused for all messages of the case (as an application's
+    // dispatcher does); in cases with an odd number of messages it is re-zeroed every time
+    if (i == 0 || c.addrs.size() % 2) memset(loc, 0, sizeof loc);
     rtosc::RtData d1;
     d1.obj = &inst.root;
     d1.loc = loc; d1.loc_size = sizeof loc;
